@@ -41,6 +41,18 @@ def vec_pool(rnd, n):
     return pool
 
 
+def shared_preempt_items(rnd, big):
+    """one object shared by two threads: every accessor of it (hash, ==, set lookup included) in both, the second running to
+    completion at every line boundary of the first - the object's first accessor call included (drivers/system.py preempt)"""
+    out = []
+    for ver in "234":
+        pool = [v[3] for v in corpus.covering_vectors(rnd, ver)]
+        for _ in range(1 if not big else 4):
+            out.append({"kind": "preempt", "shared": True, "a": [[ver, esc(rnd.choice(pool))]], "b": [[ver, "-"]]})
+        out.append({"kind": "preempt", "shared": True, "a": [[ver, esc(corpus.random_vector(rnd, ver)[3])]], "b": [[ver, "-"]]})
+    return out
+
+
 def key_of(e, what):
     return "%s|%s" % (e.get("prop", "C18"), what.split(":")[0])
 
@@ -72,6 +84,16 @@ def run(prop, tier, seed):
                 ver = rnd.choice("234")
                 items.append({"kind": "accessors", "ver": ver, "s": esc(rnd.choice(pool[ver])), "calls": [rnd.choice(acc) for _ in range(12)]})
             ev = record_events(items, work, name="acc", script="system.py")
+            # an immutable value can be read by any number of threads: single-preemption exploration of two users of one object
+            sh = shared_preempt_items(rnd, big)
+            sev = record_events(sh, work, name="shr", script="system.py", shards=len(sh))
+            c.extra["shared_object_preemption_points"] = sum(e.get("points", 0) for e in sev)
+            if c.extra["shared_object_preemption_points"] < 50 * len(sh):
+                raise MachineryError("line tracer saw only %d preemption points" % c.extra["shared_object_preemption_points"])
+            for e in sev:
+                for st in e["steps"]:
+                    st["ref"], st["refexc"] = st.pop("ref_local")
+            ev += sev
             for e in ev:
                 e.pop("item", None)
                 e["prop"] = "C18"
@@ -194,6 +216,7 @@ def run(prop, tier, seed):
                     pre_items.append({"kind": "preempt", "a": [[va, esc(a_)]], "b": [[va, esc(a_)]]})          # the same input on both sides
             t_ = "see %s and %s (%s)." % (corpus.random_vector(rnd, "2")[3], corpus.random_vector(rnd, "3")[3], corpus.random_vector(rnd, "3")[3])
             pre_items.append({"kind": "preempt", "a": [["text", esc(t_)]], "b": [["text", esc(t_)]]})
+            pre_items += shared_preempt_items(rnd, big)
             pre_items.append({"kind": "preempt", "a": [["text", esc(t_)]], "b": [["2", esc(corpus.random_vector(rnd, "2")[3])]]})
             pev = record_events(pre_items, work, name="pre", script="system.py", shards=len(pre_items))
             c.extra["preemption_points_explored"] = sum(e.get("points", 0) for e in pev)
@@ -232,6 +255,9 @@ def run(prop, tier, seed):
                 else:
                     e["_need"] = []
                     for st in e["steps"]:
+                        if "ref_local" in st:          # the reference was taken in the same process (an object nobody else touches)
+                            e["_need"].append(None)
+                            continue
                         op, ver, s = st["label"].split(":", 2)
                         nd_ = [["text", s]] if op == "text" else [[op, ver, s]]
                         e["_need"].append(nd_)
@@ -242,7 +268,9 @@ def run(prop, tier, seed):
             c.extra["n_refs"] = len(set(json.dumps(n) for n in need if n is not None))
             for e in ev:
                 for st, nd in zip(e["steps"], e.pop("_need")):
-                    if nd is None:
+                    if "ref_local" in st:
+                        st["ref"], st["refexc"] = st.pop("ref_local")
+                    elif nd is None:
                         st["ref"], st["refexc"] = st["res"], st["exc"]
                     else:
                         st["ref"], st["refexc"] = ref[json.dumps(nd)]
